@@ -63,7 +63,7 @@ class Effect:
         if self.kind == 'write':
             return 'write %s := %s' % (self.target, self.value)
         if self.kind == 'call':
-            a = list(self.args) + ['%s=%s' % kv for kv in self.kwargs]
+            a = list(self.args) + sorted('%s=%s' % kv for kv in self.kwargs)     # keyword order is not observable
             return 'call %s(%s)' % (self.target, ', '.join(a))
         if self.kind == 'yield':
             return 'yield %s' % self.value
@@ -144,10 +144,20 @@ class State:
     def bump(self, key: str):
         """the object behind `root.field` was changed in place (element store, mutator call): later
         reads of anything reached through it are reads of a new version"""
-        parts = plain(key).split('[')[0].split('.')
+        pk = plain(key)
+        parts = pk.split('[')[0].split('.')
         if len(parts) >= 2:
             b = parts[0] + '.' + parts[1]
             self.versions[b] = self.versions.get(b, 0) + 1
+        # which object was changed: X for an element X[i] / a member X.m / a method call X.m(...)
+        i, j = pk.rfind('['), pk.rfind('.')
+        if pk.endswith(']') and i > 0:
+            obj = pk[:i]
+        elif j > 0:
+            obj = pk[:j]
+        else:
+            obj = pk
+        self.counters['@mutlog'] = self.counters.get('@mutlog', ()) + (obj,)
 
     def fork(self) -> 'State':
         s = State.__new__(State)
@@ -160,6 +170,14 @@ class State:
         s.known = dict(self.known)
         s.versions = dict(self.versions)
         return s
+
+
+def _load(e):
+    e2 = copy.deepcopy(e)
+    for n in ast.walk(e2):
+        if hasattr(n, 'ctx'):
+            n.ctx = ast.Load()
+    return e2
 
 
 def name(s: str) -> ast.Name:
@@ -270,8 +288,21 @@ class Executor:
                 if cs and all(c == '__init__' or c in init_only for c in cs):
                     init_only.add(mname)
                     changed = True
+        # private helpers called only by the function under analysis (or by the constructor): they run as part of
+        # it, not while it is suspended - what they write is what the function itself writes
+        own_only = set()
+        changed = True
+        while changed:
+            changed = False
+            for mname in methods:
+                if mname in own_only or mname in init_only or not mname.startswith('_') or mname.startswith('__'):
+                    continue
+                cs = callers.get(mname, set())
+                if cs and all(c in ('__init__', self.func.name) or c in init_only or c in own_only for c in cs):
+                    own_only.add(mname)
+                    changed = True
         for mname, f in methods.items():
-            if mname == '__init__' or mname in init_only or mname == self.func.name or f.node is self.func.node:
+            if mname == '__init__' or mname in init_only or mname in own_only or mname == self.func.name or f.node is self.func.node:
                 continue
             vol |= direct_self_writes(f.node)
         return vol - self.opts.stable_fields
@@ -345,6 +376,13 @@ class Executor:
                     continue
                 for t in targets:
                     self.assign(t, v, s2, fctx, ln)
+                    if isinstance(t, ast.Name):
+                        # x = <path>: x names the object found at that path now
+                        if isinstance(s.value, (ast.Attribute, ast.Subscript)) and isinstance(v, (ast.Attribute, ast.Subscript, ast.Name)) \
+                                and plain(term(v)).startswith('self.'):
+                            s2.counters['@alias:' + t.id] = (plain(term(v)), len(s2.counters.get('@mutlog', ())))
+                        else:
+                            s2.counters.pop('@alias:' + t.id, None)
                 outs.append((s2, ('fall',)))
             return outs
         if isinstance(s, ast.AugAssign):
@@ -478,6 +516,21 @@ class Executor:
         while isinstance(b, ast.If) and not b.orelse and len(b.body) == 1:
             conds.append(b.test)
             b = b.body[0]
+        # if c: acc.append(e1) else: acc.append(e2)   is   acc.append(e1 if c else e2)
+        if isinstance(b, ast.If) and len(b.body) == 1 and len(b.orelse) == 1:
+            def _app(x):
+                if isinstance(x, ast.Expr) and isinstance(x.value, ast.Call) and isinstance(x.value.func, ast.Attribute) \
+                        and isinstance(x.value.func.value, ast.Name) and x.value.func.attr in ('add', 'append') \
+                        and len(x.value.args) == 1 and not x.value.keywords:
+                    return x.value.func.value.id, x.value.func.attr, x.value.args[0]
+                return None
+            p1, p2 = _app(b.body[0]), _app(b.orelse[0])
+            if p1 and p2 and p1[:2] == p2[:2]:
+                merged = ast.IfExp(test=b.test, body=p1[2], orelse=p2[2])
+                b = ast.copy_location(ast.Expr(value=ast.Call(
+                    func=ast.Attribute(value=ast.Name(id=p1[0], ctx=ast.Load()), attr=p1[1], ctx=ast.Load()),
+                    args=[merged], keywords=[])), b)
+                ast.fix_missing_locations(b)
         if isinstance(b, ast.Expr) and isinstance(b.value, ast.Call) and isinstance(b.value.func, ast.Attribute) \
                 and isinstance(b.value.func.value, ast.Name) and b.value.func.attr in ('add', 'append') \
                 and len(b.value.args) == 1 and not b.value.keywords:
@@ -512,6 +565,10 @@ class Executor:
                     f = c.func
                     nm = f.id if isinstance(f, ast.Name) else f.attr if isinstance(f, ast.Attribute) else ''
                     if nm not in PURE_FUNCS and nm not in PURE_METHODS:
+                        # a call in the *element* of a list/set accumulation is kept verbatim inside the
+                        # comprehension term, exactly as it is when the source has the comprehension
+                        if kind in ('list', 'set') and part is elt:
+                            continue
                         return None
         gens = [ast.comprehension(target=s.target, iter=s.iter, ifs=conds, is_async=0)]
         if kind == 'set':
@@ -532,38 +589,50 @@ class Executor:
         return [(st2, ('fall',))]
 
     def _dict_fill(self, s, st: State, fctx: FuncInfo):
-        """the fill idiom   D1 = {} ; D2 = {} ; for k in S: D1[k] = e1 ; D2[k] = e2   is
-        D1 = {k: e1 for k in S} ; D2 = {k: e2 for k in S}: one canonical form for both"""
-        if not isinstance(s, ast.For) or s.orelse or not s.body or not isinstance(s.target, ast.Name):
+        """the fill idiom   for T in S: D1[k1] = e1 ; D2[k2] = e2 ...   (k_i, e_i pure expressions over the loop target,
+        the D_i distinct and not read in the loop) is, for each D_i in turn,
+            D_i = {k_i: e_i for T in S}            when D_i is known to be an empty dict at this point
+            D_i.update({k_i: e_i for T in S})      otherwise
+        one canonical form for the loop, the comprehension, dict.fromkeys and dict(enumerate(..))"""
+        if not isinstance(s, ast.For) or s.orelse or not s.body:
             return None
-        tv = s.target.id
+        tnames = set(_names_in_target(s.target))
+        if not tnames:
+            return None
         fills = []
         for b in s.body:
-            if not (isinstance(b, ast.Assign) and len(b.targets) == 1 and isinstance(b.targets[0], ast.Subscript)
-                    and isinstance(b.targets[0].slice, ast.Name) and b.targets[0].slice.id == tv):
+            if not (isinstance(b, ast.Assign) and len(b.targets) == 1 and isinstance(b.targets[0], ast.Subscript)):
+                return None
+            keyx = b.targets[0].slice
+            if not any(isinstance(n, ast.Name) and n.id in tnames for n in ast.walk(keyx)):
                 return None
             d = b.targets[0].value
             if isinstance(d, ast.Name):
+                if d.id in tnames:
+                    return None
                 cur, key = st.locals.get(d.id), d.id
-            elif isinstance(d, ast.Attribute) and isinstance(d.value, ast.Name) and d.value.id == 'self':
+                if cur is not None and not isinstance(cur, (ast.Call, ast.Dict, ast.DictComp)):
+                    # an alias of something on the heap: look through it
+                    key = plain(term(cur))
+                    cur = st.heap.get(key)
+            elif isinstance(d, (ast.Attribute, ast.Subscript)):
                 key = plain(term(self.subst(d, st, fctx, load_target=False)))
                 cur = st.heap.get(key)
             else:
                 return None
+            if any(isinstance(n, ast.Name) and n.id in tnames for n in ast.walk(d)):
+                return None
             empty = (isinstance(cur, ast.Call) and isinstance(cur.func, ast.Name) and cur.func.id == 'dict'
                      and not cur.args and not cur.keywords) or (isinstance(cur, ast.Dict) and not cur.keys)
-            if not empty or key in [k for k, _d, _v in fills]:
+            if key in [k for k, _d, _kx, _v, _e in fills]:
                 return None
-            fills.append((key, d, b.value))
-        names = {k for k, _d, _v in fills}
-        for part in [v for _k, _d, v in fills] + [s.iter]:
+            fills.append((key, d, keyx, b.value, empty))
+        dnames = {ast.unparse(d) for _k, d, _kx, _v, _e in fills}
+        for part in [v for _k, _d, _kx, v, _e in fills] + [kx for _k, _d, kx, _v, _e in fills] + [s.iter]:
             for c in ast.walk(part):
                 if isinstance(c, (ast.Yield, ast.YieldFrom, ast.NamedExpr)):
                     return None
-                if isinstance(c, ast.Name) and c.id in names:
-                    return None
-                if isinstance(c, ast.Attribute) and isinstance(c.value, ast.Name) and c.value.id == 'self' \
-                        and ('self.' + c.attr) in names:
+                if isinstance(c, (ast.Name, ast.Attribute, ast.Subscript)) and ast.unparse(c) in dnames:
                     return None
                 if isinstance(c, ast.Call):
                     f = c.func
@@ -571,16 +640,25 @@ class Executor:
                     if nm not in PURE_FUNCS and nm not in PURE_METHODS:
                         return None
         cur_st = st
-        for key, d, val in fills:
-            comp = ast.DictComp(key=ast.Name(id=tv, ctx=ast.Load()), value=val,
-                                generators=[ast.comprehension(target=s.target, iter=s.iter, ifs=[], is_async=0)])
-            alts = self.ev(comp, cur_st, fctx)
-            if len(alts) != 1 or alts[0][2]:
-                return None
-            cur_st, v, _ = alts[0]
-            tgt = copy.deepcopy(d)
-            tgt.ctx = ast.Store()
-            self.assign(tgt, v, cur_st, fctx, s.lineno)
+        for key, d, keyx, val, empty in fills:
+            comp = ast.DictComp(key=copy.deepcopy(keyx), value=copy.deepcopy(val),
+                                generators=[ast.comprehension(target=copy.deepcopy(s.target), iter=copy.deepcopy(s.iter), ifs=[], is_async=0)])
+            ast.fix_missing_locations(ast.copy_location(comp, s))
+            if empty:
+                alts = self.ev(comp, cur_st, fctx)
+                if len(alts) != 1 or alts[0][2]:
+                    return None
+                cur_st, v, _ = alts[0]
+                tgt = copy.deepcopy(d)
+                tgt.ctx = ast.Store()
+                self.assign(tgt, v, cur_st, fctx, s.lineno)
+            else:
+                call = ast.Expr(value=ast.Call(func=ast.Attribute(value=_load(d), attr='update', ctx=ast.Load()), args=[comp], keywords=[]))
+                ast.fix_missing_locations(ast.copy_location(call, s))
+                outs = self.exec_stmt(call, cur_st, fctx)
+                if len(outs) != 1 or outs[0][1][0] != 'fall':
+                    return None
+                cur_st = outs[0][0]
         return [(cur_st, ('fall',))]
 
     def exec_loop(self, s, st: State, fctx: FuncInfo):
@@ -827,6 +905,11 @@ class Executor:
             if k.startswith(key + '.') or k.startswith(key + '['):
                 del st.heap[k]
             elif base is not None and (k.startswith(base + '[')):
+                # two different string constants as the last subscript name different entries
+                m1 = re.match(r"^(.*)\[('[^']*')\]$", key)
+                m2 = re.match(r"^(.*)\[('[^']*')\]$", k)
+                if m1 and m2 and m1.group(1) == m2.group(1) and m1.group(2) != m2.group(2):
+                    continue
                 del st.heap[k]
             elif key.startswith(k + '.') or key.startswith(k + '['):
                 # writing inside an object whose whole value was forwarded
@@ -1009,8 +1092,73 @@ class _Ev:
 
     def e_Name(self, e, st):
         if e.id in st.locals:
-            return [(st, st.locals[e.id], None)]
+            v = st.locals[e.id]
+            al = st.counters.get('@alias:' + e.id)
+            if al is not None and st.versions and isinstance(v, (ast.Subscript, ast.Attribute, ast.Name)):
+                path, since = al
+                log = st.counters.get('@mutlog', ())[since:]
+                if any(path == m or path.startswith(m + '[') or path.startswith(m + '.') for m in log if m != path):
+                    # the container the object was taken from changed: the slot may hold something else now,
+                    # the local still names the object it was bound to - from here on it is a plain value
+                    st.counters.pop('@alias:' + e.id, None)
+                elif any(m == path or m.startswith(path + '[') or m.startswith(path + '.') for m in log):
+                    v = self._refresh_alias(v, st)
+            return [(st, v, None)]
         return [(st, self.resolve_global(e), None)]
+
+    _SELF_FIELD = re.compile(r'^(self\.[A-Za-z_]\w*)((?:\$\d+)?(?:\$g\d+)?)((?:@\d+)?)$')
+
+    def _refresh_alias(self, v, st):
+        """a local bound to an object reached from self (q = self.queues[k]) names that *object*: in-place changes
+        made since (q.append(x), self.queues[k].pop()) are visible through it, exactly as through the original
+        path.  Bring the in-place version tags of such a reference chain up to date (rebinding self.queues itself
+        does not touch them: the local keeps the old object)."""
+        chain = v
+        while isinstance(chain, (ast.Subscript, ast.Attribute)):
+            chain = chain.value
+        if not isinstance(chain, ast.Name):
+            return v
+        root = None
+        if chain.id == 'self':
+            # Attribute(self, field) at the bottom of the chain
+            node = v
+            parent = None
+            while isinstance(node, (ast.Subscript, ast.Attribute)) and node.value is not chain:
+                node = node.value
+            if isinstance(node, ast.Attribute):
+                root = 'self.' + node.attr
+                ver = st.versions.get(root, 0)
+                g = st.versions.get('*', 0)
+                if not ver and not g:
+                    return v
+                v2 = copy.deepcopy(v)
+                n2 = v2
+                par = None
+                while isinstance(n2, (ast.Subscript, ast.Attribute)) and not (isinstance(n2.value, ast.Name) and n2.value.id == 'self'):
+                    par, n2 = n2, n2.value
+                new = name(root + ('$%d' % ver if ver else '') + ('$g%d' % g if g else ''))
+                if par is None:
+                    return new
+                par.value = new
+                return v2
+            return v
+        m = self._SELF_FIELD.match(chain.id)
+        if not m:
+            return v
+        root = m.group(1)
+        ver = st.versions.get(root, 0)
+        g = st.versions.get('*', 0)
+        newid = root + ('$%d' % ver if ver else '') + ('$g%d' % g if g else '') + m.group(3)
+        if newid == chain.id:
+            return v
+        v2 = copy.deepcopy(v)
+        n2 = v2
+        while isinstance(n2, (ast.Subscript, ast.Attribute)):
+            if isinstance(n2.value, ast.Name):
+                n2.value = name(newid)
+                return v2
+            n2 = n2.value
+        return name(newid)
 
     def resolve_global(self, e: ast.Name):
         mod = self.fctx.module
@@ -1246,6 +1394,33 @@ class _Ev:
         return res
 
     def e_YieldFrom(self, e, st):
+        # `yield from self._helper(...)` with a private, non-overridden generator method of the class: the helper's
+        # statements run in the caller's process exactly as if they were written in place (its yields are the
+        # caller's yields, its return value is the value of the expression) - execute its body inline
+        v = e.value
+        x = self.x
+        if not self.pure and isinstance(v, ast.Call) and isinstance(v.func, ast.Attribute) and isinstance(v.func.value, ast.Name) \
+                and v.func.value.id == 'self' and x.ctx is not None and v.func.attr.startswith('_') \
+                and not v.func.attr.startswith('__'):
+            target = x.ctx.lookup(v.func.attr)
+            if target is not None and target.is_generator() and not x.is_virtual(v.func.attr) \
+                    and v.func.attr not in x.opts.no_inline and len(x.call_stack) < x.opts.inline_depth \
+                    and target.normalized() not in x.call_stack:
+                res = []
+                argexprs = list(v.args) + [k.value for k in v.keywords]
+                for s2, vals, ex2 in self.seq(argexprs, st):
+                    if ex2:
+                        res.append((s2, None, ex2))
+                        continue
+                    args = vals[:len(v.args)]
+                    kwargs = {k.arg: val for k, val in zip(v.keywords, vals[len(v.args):])}
+                    out = self.inline(target, args, kwargs, s2)
+                    if out is None:
+                        res = None
+                        break
+                    res.extend(out)
+                if res is not None:
+                    return res
         return self.e_Yield(ast.Yield(value=e.value, lineno=getattr(e, 'lineno', 0)), st)
 
     def e_Await(self, e, st):
@@ -1275,7 +1450,16 @@ class _Ev:
                     res.append((s2, None, ex2))
                     continue
                 args = vals[:len(e.args)]
-                kwargs = [(k.arg, v) for k, v in zip(e.keywords, vals[len(e.args):])]
+                kwargs = []
+                for k, v in zip(e.keywords, vals[len(e.args):]):
+                    if k.arg is None and isinstance(v, ast.Call) and isinstance(v.func, ast.Name) and v.func.id == 'dict' \
+                            and not v.args and all(kk.arg for kk in v.keywords):
+                        kwargs.extend((kk.arg, kk.value) for kk in v.keywords)       # f(**dict(a=1, b=2)) is f(a=1, b=2)
+                    elif k.arg is None and isinstance(v, ast.Dict) and v.keys and all(
+                            isinstance(kk, ast.Constant) and isinstance(kk.value, str) for kk in v.keys):
+                        kwargs.extend((kk.value, vv) for kk, vv in zip(v.keys, v.values))
+                    else:
+                        kwargs.append((k.arg, v))
                 res.extend(self.call(e, f, recv, args, kwargs, s2, ln, stmt_level))
         return res
 
@@ -1421,7 +1605,7 @@ class _Ev:
         st.effects.append(Effect('call', target=callee, args=aterms, kwargs=[(kk, term(v)) for kk, v in kwargs],
                                  sym=sym, lineno=ln, epoch=st.epoch))
         cparts = callee.split('[')[0].split('.')
-        if len(cparts) >= 3:
+        if len(cparts) >= 3 or '[' in callee:
             st.bump(callee)               # a method call on the object behind root.field may change it in place
         elif len(cparts) == 2 and cparts[0] == 'self':
             st.versions['*'] = st.versions.get('*', 0) + 1      # un-inlined self call: any field may change
@@ -1500,6 +1684,14 @@ class _Subst(ast.NodeTransformer):
     def visit_Name(self, n):
         if isinstance(n.ctx, ast.Load) and n.id not in self.bound and n.id in self.st.locals:
             return copy.deepcopy(self.st.locals[n.id])
+        if isinstance(n.ctx, ast.Load) and n.id not in self.bound:
+            # an import alias (import networkx as nx) reads the same inside a comprehension as at statement level
+            try:
+                r = self.ev.x.repo.resolve_name(self.ev.fctx.module, n.id)
+            except Exception:  # pragma: no cover
+                r = None
+            if r and r[0] == 'ext' and '.' not in r[1] and r[1] != n.id:
+                return ast.copy_location(ast.Name(id=r[1], ctx=ast.Load()), n)
         return n
 
     def visit_Call(self, n):
@@ -1551,40 +1743,79 @@ def _names_in_target(t) -> List[str]:
     return []
 
 
+_SEQ_CACHE: Dict[int, tuple] = {}
+
+
+def _name_seq(fn):
+    """evaluation-order numbers of the Name nodes of a function: id(node) -> (seq, is_read).  Structural (the
+    right-hand side of an assignment comes before its targets, an augmented target is a read), not positional:
+    normalised trees carry copied statements whose line numbers say nothing about their order."""
+    k = id(fn)
+    if k in _SEQ_CACHE and _SEQ_CACHE[k][0] is fn:
+        return _SEQ_CACHE[k][1]
+    seq = {}
+    counter = [0]
+
+    def visit(n):
+        if isinstance(n, ast.Assign):
+            visit(n.value)
+            for t in n.targets:
+                visit(t)
+            return
+        if isinstance(n, ast.AnnAssign):
+            if n.value is not None:
+                visit(n.value)
+            visit(n.target)
+            return
+        if isinstance(n, ast.AugAssign):
+            if isinstance(n.target, ast.Name):
+                counter[0] += 1
+                seq[id(n.target)] = (counter[0], True)         # read first, then written
+            else:
+                visit(n.target)
+            visit(n.value)
+            return
+        if isinstance(n, ast.For):
+            visit(n.iter)
+            visit(n.target)
+            for x in n.body + n.orelse:
+                visit(x)
+            return
+        if isinstance(n, ast.Name):
+            counter[0] += 1
+            seq[id(n)] = (counter[0], isinstance(n.ctx, ast.Load))
+            return
+        for c in ast.iter_child_nodes(n):
+            visit(c)
+    visit(fn)
+    _SEQ_CACHE[k] = (fn, seq)
+    return seq
+
+
 def _live_in(loop, nm: str, fn) -> bool:
     """is local `nm` carried from one iteration to the next (or out of the loop)?
-    first occurrence in test+body (source order) is a read, or it is read after the loop"""
-    occ = []
+    its first occurrence in test+body (evaluation order) is a read, or it is read after the loop"""
+    seq = _name_seq(fn)
     nodes = []
     if isinstance(loop, ast.While):
         nodes.append(loop.test)
     nodes.extend(loop.body)
+    occ = []
     for top in nodes:
         for n in ast.walk(top):
-            if isinstance(n, ast.Name) and n.id == nm:
-                occ.append((n.lineno, n.col_offset, isinstance(n.ctx, ast.Load)))
-            elif isinstance(n, ast.AugAssign) and isinstance(n.target, ast.Name) and n.target.id == nm:
-                occ.append((n.lineno, -1, True))
+            if isinstance(n, ast.Name) and n.id == nm and id(n) in seq:
+                occ.append(seq[id(n)])
     if occ:
         occ.sort()
-        # an assignment `x = f(x)` reads first although the target comes first textually
-        first = occ[0]
-        same_stmt_reads = [o for o in occ if o[0] == first[0] and o[2]]
-        if first[2] or (same_stmt_reads and not first[2] and _reads_in_value_first(nodes, nm, first[0])):
+        if occ[0][1]:
             return True
-    end = getattr(loop, 'end_lineno', loop.lineno)
+    last = 0
+    for n in ast.walk(loop):
+        if isinstance(n, ast.Name) and id(n) in seq:
+            last = max(last, seq[id(n)][0])
     for n in ast.walk(fn):
-        if isinstance(n, ast.Name) and n.id == nm and isinstance(n.ctx, ast.Load) and n.lineno > end:
+        if isinstance(n, ast.Name) and n.id == nm and id(n) in seq and seq[id(n)][1] and seq[id(n)][0] > last:
             return True
-    return False
-
-
-def _reads_in_value_first(nodes, nm, lineno) -> bool:
-    for top in nodes:
-        for n in ast.walk(top):
-            if isinstance(n, ast.Assign) and n.lineno == lineno:
-                if any(isinstance(m, ast.Name) and m.id == nm and isinstance(m.ctx, ast.Load) for m in ast.walk(n.value)):
-                    return True
     return False
 
 
